@@ -352,18 +352,28 @@ def r02_1(cx, R, S):
     # type-path kind table (writer side; the reader's is R01.11)
     tp = cx.wfn("write_type_path")
     if R.anchor("R02.1", "fn write_type_path", tp):
-        ms = [n for n in H.walk(tp["body"]) if n.get("k") == "match"]
         names = {"ArrayDeeper": "array", "NestedDeeper": "nested", "WildcardBound": "wildcard bound", "TypeArgument": "type argument"}
-        if R.anchor("R02.1", "kind match in write_type_path", len(ms) == 1, sp=tp["sp"]):
+        loops = [n for n in H.walk(tp["body"]) if (n.get("k") == "for" or U.iter_closure(n) is not None) and U.has_stream_ops(n, "w")]
+        if R.anchor("R02.1", "loop over the path elements in write_type_path", len(loops) == 1, sp=tp["sp"]):
+            # the body of the loop is evaluated once per TypePathKind variant (whatever mixture of match / if let / helper selects the
+            # pair): the two bytes written must be (JVMS type_path_kind, 0 | the variant's type_argument_index)
+            lp = loops[0]
+            epat, ebody = (lp["pat"], lp["body"]) if lp.get("k") == "for" else ((U.iter_closure(lp)["params"] or [{"k": "wild"}])[0], U.iter_closure(lp)["body"])
             for var, sname in names.items():
                 val = T.V(var) if var != "TypeArgument" else ("st", var, {"index": T.sym("index")})
-                ev = T.Evaluator(scrut_override={id(ms[0]): val})
-                res = ev.match(ms[0], {})
+                ev = EvalW()
+                env = {}
+                T.match_pat(epat, val, env)
+                try:
+                    ev.ev(ebody, env)
+                except (T.Return, T.Break):
+                    pass
+                ws = [(nm, v) for (nm, v, _n) in ev.writes]
                 want_kind = S["type_path_kinds"][sname]
-                ok = res[0] == "t" and len(res[1]) == 2 and res[1][0] == ("i", want_kind) and \
-                    (res[1][1] == ("i", 0) if var != "TypeArgument" else res[1][1][0] == "sym")
-                R.inst("R02.1", "type-path-kind:%s" % var, ok, sp=ms[0]["sp"], expect="(%d, %s)" % (want_kind, "0" if var != "TypeArgument" else "index"),
-                       got=T.show(res))
+                ok = len(ws) == 2 and ws[0][0] == ws[1][0] == "write_u8" and ws[0][1] == ("i", want_kind) and \
+                    ws[1][1] == (("i", 0) if var != "TypeArgument" else T.sym("index"))
+                R.inst("R02.1", "type-path-kind:%s" % var, ok, sp=lp["sp"], expect="(%d, %s)" % (want_kind, "0" if var != "TypeArgument" else "index"),
+                       got=_writes_show(ev.writes))
             # and the two bytes written are (kind, index) in that order
             wi = cx.main(tp, "w")
             order_ok = False
@@ -470,7 +480,7 @@ def r02_1(cx, R, S):
         pnames = [H.pat_bindings(p)[0][1] if H.pat_bindings(p) else None for p in hb["params"]]
         pid = [H.pat_bindings(p)[0][0] if H.pat_bindings(p) else None for p in hb["params"]]
         ok = len(wi) >= 2 and wi[0].get("i") == "p" and wi[0]["t"] == "u16" and wi[0].get("kind") == "utf8" and wi[1].get("i") == "p" and wi[1]["t"] == "u32"
-        name_ok = ok and _arg_local(wi[0]) == pid[2]
+        name_ok = ok and _arg_local(wi[0], hb["body"]) == pid[2]
         if hn == "write_attribute":
             shape = ok and len(wi) == 3 and wi[2].get("i") == "splice"
             lroot = _len_root(ex, wi[1]["arg"]) if ok else None
@@ -483,7 +493,7 @@ def r02_1(cx, R, S):
             R.inst("R02.1", "helper:write_attribute", good, sp=hb["sp"], expect="name index, u32 = len(buffer filled by the closure), that buffer",
                    got=U.show(wi) + " len-of=%s handed=%s" % (lroot, handed))
         else:
-            good = ok and len(wi) == 2 and name_ok and _arg_local(wi[1]) == pid[3]
+            good = ok and len(wi) == 2 and name_ok and _arg_local(wi[1], hb["body"]) == pid[3]
             R.inst("R02.1", "helper:write_attribute_fix_length", good, sp=hb["sp"], expect="name index, u32 = the `length` parameter", got=U.show(wi))
     for loc, hdr in hdr_seen:
         ok = hdr is not None and len(hdr) == 2 and hdr[0].get("t") == "u16" and hdr[0].get("kind") == "utf8" and hdr[1].get("t") == "u32"
@@ -586,13 +596,16 @@ def _reader_variants(arm):
     return {arm.get("label")} | set(arm.get("labels", []))
 
 
-def _arg_local(prim):
+def _arg_local(prim, root=None):
+    """The local a primitive's value is (`w.write_u32(length)`) or is made from by one call (`w.write_u16(pool.put_utf8(name)?)`), through
+    let-bound locals when the function body `root` is given."""
     a = prim.get("arg")
     if a is None:
         return None
-    x = H.peel(a, tries=True)
+    res = (lambda e: H.peel(_whole_value(root, H.peel(e, tries=True)), tries=True)) if root is not None else (lambda e: H.peel(e, tries=True))
+    x = res(a)
     if x.get("k") == "mcall" and x["args"]:
-        x = H.peel(x["args"][0], tries=True)
+        x = res(x["args"][0])
     l = H.local_of(x)
     return l[0] if l else None
 
@@ -929,6 +942,35 @@ def r02_4(cx, R, S):
                                             dead.setdefault((y["adt"], y["name"]), []).append((id(y), name, b["name"]))
                             if x.get("k") == "field" and x.get("adt"):
                                 dead.setdefault((x["adt"], x["name"]), []).append((id(x), name, b["name"]))
+    # matches over a tree enum with a catch-all arm: a variant no pattern names is handled there, provided the arm does something
+    # (an empty / diverging catch-all drops the variant or gives up on it)
+    catch_alls = {}      # adt path -> [(catch-all arm is non-trivial, match node)]
+    for b in wbodies:
+        for n, ps in H.walk_with_parents(b["body"]):
+            if n.get("k") != "match" or n.get("src") not in (None, "Normal") or H.macro_of(n, "matches"):
+                continue        # (`matches!(x, A | B)` asks a question about x, its `_ => false` handles nothing)
+            t = (H.peel(n["scrut"]).get("ty") or "").replace("&", "").replace("mut ", "").strip()
+            t = re.sub(r"^'\w+ ", "", t).split("<", 1)[0]
+            if t not in duke.adts or duke.adts[t]["kind"] != "enum":
+                continue
+            for a_ in n["arms"]:
+                p0 = H.pat_peel(a_["pat"])
+                if not (p0.get("k") in ("wild", "bind") and "sub" not in p0 and "guard" not in a_):
+                    continue
+                # only a match that produces output counts: the arm writes, or the value of the match is bound by a `let` to locals that
+                # are written (`let (kind, index) = match i { .. _ => (2, 0) }; w.write_u8(kind)?`); a classification
+                # (`let wide = match x { A => true, _ => false }`) handles nothing
+                feeds = U.has_stream_ops(a_["body"], "w")
+                if not feeds:
+                    let = next((q for q in reversed(ps) if q.get("k") == "let" and "init" in q), None)
+                    ids_ = {i for (i, _nm) in H.pat_bindings(let["pat"])} if let is not None else set()
+                    feeds = bool(ids_) and any(U.is_stream_call(x, "w") and any(H.mentions_local(a2, i) for a2 in x["args"] for i in ids_)
+                                               for x in H.walk(b["body"]))
+                if not feeds:
+                    continue
+                body_ = H.peel(a_["body"])
+                empty = (body_.get("k") == "block" and not body_["stmts"] and "tail" not in body_) or (body_.get("k") == "tuple" and not body_["es"])
+                catch_alls.setdefault(t, []).append((not empty and not H.diverges(a_["body"]) and not H.is_err_exit(a_["body"]), n))
     reach = _tree_reach(duke, "duke::tree::class::ClassFile")
     R.anchor("R02.4", "struct duke::tree::class::ClassFile", "duke::tree::class::ClassFile" in reach)
     n_fields = 0
@@ -962,9 +1004,15 @@ def r02_4(cx, R, S):
             if p in conv:
                 R.inst("R02.4", "enum:%s=converted-by-method" % short, True, sp=a["sp"], nontrivial=False)
                 continue
+            ca = catch_alls.get(p, [])
+            ca_ok = bool(ca) and all(x for (x, _m) in ca)
             for v in a["variants"]:
-                R.inst("R02.4", "variant:%s::%s" % (short, v["name"]), (p, v["name"]) in variants, sp=a["sp"],
-                       detail="no pattern in simple_class_writer* names this variant (it can only be handled by a wildcard arm)")
+                named = (p, v["name"]) in variants
+                R.inst("R02.4", "variant:%s::%s" % (short, v["name"]), named or ca_ok, sp=a["sp"],
+                       detail=("no pattern in simple_class_writer* names this variant and a catch-all arm over %s does nothing / gives up: %s"
+                               % (short, [H.render(m["scrut"]) for (x, m) in ca if not x]) if ca else
+                               "no pattern in simple_class_writer* names this variant and no catch-all arm of a match over the enum produces output for it") if not named else
+                              None)
     # attributes delivered by the reader but never emitted
     for loc, wn, rn in LOCS:
         rb, wb = cx.rfn(rn), cx.wfn(wn)
@@ -1926,10 +1974,23 @@ def _offset_fn(cx, R, S):
     while e.get("k") == "block" and "tail" in e and not e["stmts"]:
         e = H.peel(e["tail"])
     ok = False
+    e = _whole_value(fb["body"], U._tail_expr(fb["body"]) or e)
     if e.get("k") == "bin" and e["op"] == "-":
-        l, r = H.peel(e["l"], casts=True), H.peel(e["r"], casts=True)
-        ok = bool(H.local_of(l) and H.local_of(r) and H.local_of(l)[0] == ids[1] and H.local_of(r)[0] == ids[0]) and fb["output"] == "i32" and \
-            all("i32" in (x.get("ty") or "") for x in (e["l"], e["r"]))
+        def widened(x):
+            """the u16 parameter behind a lossless conversion to i32 (`x as i32`, `i32::from(x)`, `x.into()`), through let-bound locals"""
+            x = _whole_value(fb["body"], x)
+            for _ in range(4):
+                x = H.peel(x, casts=True)
+                if x.get("k") == "call" and H.callee_name(x) == "from" and len(x["args"]) == 1 and ((x.get("callee") or {}).get("path") or "").startswith("core::convert::From"):
+                    x = _whole_value(fb["body"], x["args"][0])
+                elif x.get("k") == "mcall" and x["name"] == "into" and not x["args"]:
+                    x = _whole_value(fb["body"], x["recv"])
+                else:
+                    break
+            return H.local_of(x)
+        l, r = widened(e["l"]), widened(e["r"])
+        ok = bool(l and r and l[0] == ids[1] and r[0] == ids[0]) and fb["output"] == "i32" and \
+            all((H.peel(x).get("ty") or "") == "i32" for x in (e["l"], e["r"]))
     R.inst("R02.9", "compute_signed_offset=target-position", ok, sp=fb["sp"], expect="(target as i32) - (opcode_pos as i32)", got=H.render(e))
     # every call site passes (a position, the resolved target of a label) in that order
     n = 0
@@ -2983,12 +3044,12 @@ def r02_misc(cx, R, S):
     if R.anchor("R02.5", "fn simple_class_writer::align_to_4_byte_boundary", al):
         ms = D.int_matches(al["body"], 3)
         if R.anchor("R02.5", "match in the writer's align_to_4_byte_boundary", len(ms) == 1, sp=al["sp"]):
-            sc = H.peel(ms[0]["scrut"], refs=False)
+            sc = _whole_value(al["body"], ms[0]["scrut"])
             pid = H.pat_bindings(al["params"][0])[0][0]
-            masked = sc.get("k") == "bin" and sc["op"] == "&" and H.const_value(sc["r"]) == 3
+            masked = sc.get("k") == "bin" and ((sc["op"] == "&" and H.const_value(sc["r"]) == 3) or (sc["op"] == "%" and H.const_value(sc["r"]) == 4))
             l = H.peel(sc["l"], casts=True) if masked else {}
             on_len = l.get("k") == "mcall" and l["name"] == "len" and H.local_of(l["recv"]) and H.local_of(l["recv"])[0] == pid
-            R.inst("R02.5", "align:position=len&3", bool(masked and on_len), sp=al["sp"], expect="writer.len() & 0b11 (the code buffer starts at bytecode offset 0)",
+            R.inst("R02.5", "align:position=len&3", bool(masked and on_len), sp=al["sp"], expect="writer.len() & 0b11 or writer.len() % 4 (the code buffer starts at bytecode offset 0)",
                    got=H.render(sc))
             for k, pad in S["align4_padding"].items():
                 ev = EvalW(scrut_override={id(ms[0]): ("i", int(k))})
